@@ -71,6 +71,11 @@ void checkReadBack(Case& c, const std::string& path, const ref::RefGraph& exp, c
   }
   if constexpr (!std::is_void<T>::value) {
     if (r.sizeEdges() && !r.rawEdgeData()) {
+      if (cls == "v2-odd") { // short file of the version-2 padding defect: fromFile finds no room for edge data
+        c.violation(c.key("readback", cls), J().kv("what", "library wrote the file, library read it back: edge data missing (edgeData == nullptr)")
+                                                 .kv("file_bytes", fileSize(path)).kv("edges", exp.numEdges()).kv("edge_size", (uint64_t)sizeof(T)).str());
+        return;
+      }
       // the failing component is the reader: same key as the fromFile component uses
       c.violation("C12:FileGraph.fromFile:edge-data-missing:width" + std::to_string(sizeof(T)),
                   J().kv("what", "file written by the library (toFile) has edge data, fromFile presents none (edgeData == nullptr)")
